@@ -30,7 +30,7 @@ def plan(tier, seed):
 
 
 def floors(tier):
-    return {"evaluations": 400, "strata": ["recompute", "stale-nodes", "permutation", "option-change", "second-label-set", "subset-of-earlier-set", "edited-in-place", "other-engine-alive", "hash-seed"],
+    return {"evaluations": 400, "strata": ["recompute", "stale-nodes", "permutation", "option-change", "second-label-set", "subset-of-earlier-set", "edited-in-place", "other-engine-alive", "set-options-without-changes", "hash-seed"],
             "events": {"Force.compute": 1500}, "distinct_nontrivial": 200}
 
 
@@ -89,7 +89,7 @@ def gen_history(rng):
         if r < 0.35:
             ops.append(["compute"])
         elif r < 0.6:
-            ops.append(["set_options", rng.choice(OPTION_DELTAS)])
+            ops.append(["set_options", rng.choice(OPTION_DELTAS + [None, "no-argument", {}])])
             ops.append(["compute"])
         elif r < 0.7:
             ops.append(["nodes", rng.choice(["A", "B"]), rng.choice(["fresh", "stale", "permuted", "same-objects"])])
@@ -194,9 +194,16 @@ def run_history(ctx, mon, h):
                     feats.add("second-label-set")
                 cur = name
             elif op[0] == "set_options":
-                f.set_options(dict(op[1]))
-                acc.update(op[1])
-                feats.add("option-change")
+                if op[1] == "no-argument":
+                    f.set_options()  # changes nothing
+                    feats.add("set-options-without-changes")
+                elif not op[1]:
+                    f.set_options(None if op[1] is None else {})
+                    feats.add("set-options-without-changes")
+                else:
+                    f.set_options(dict(op[1]))
+                    acc.update(op[1])
+                    feats.add("option-change")
             elif op[0] == "permute-in-place":
                 nodes = list(objs[cur])
                 prng.shuffle(nodes)
